@@ -188,6 +188,26 @@ func oracleC03(c mergeCase, o mergeObs) string {
 
 // C04, directly on the implementation.
 func oracleC04(c mergeCase, o mergeObs) string {
+	// the planner's reading of the table: a root field or a field of a Node type goes to its route from
+	// wherever it is asked and whatever operation runs
+	if o.RouteOp != "" {
+		return o.RouteOp
+	}
+	table := map[string]map[string]string{}
+	isNode := map[string]bool{}
+	for _, e := range o.TM {
+		table[e.Type] = map[string]string{}
+		isNode[e.Type] = e.IsNode
+		for _, f := range e.Fields {
+			table[e.Type][f[0]] = f[1]
+		}
+	}
+	for _, r := range o.Routes {
+		u, routed := table[r.Type][r.Field]
+		if routed && (isNode[r.Type] || r.Type == "Query" || r.Type == "Mutation" || r.Type == "Subscription") && r.Result != "url:"+u {
+			return fmt.Sprintf("%s.%s is routed to %s but the planner, asked from %q, is told %s", r.Type, r.Field, u, r.From, r.Result)
+		}
+	}
 	tm := map[string]tmEntry{}
 	for _, e := range o.TM {
 		tm[e.Type] = e
@@ -453,6 +473,10 @@ func driveMerge(prop string, seed int64, tier, out, replay string) {
 		for _, c := range g.cases {
 			hx.Current(out, idx, c)
 			o := runMerge(c)
+			if prop == "C04" && o.Outcome == "ok" {
+				observeRoutes(c, &o)
+				obs.Count("routes_read_through_GetURL", len(o.Routes))
+			}
 			if o.Outcome == "badinput" {
 				obs.Count("generator_invalid_sdl")
 				obs.Notes = append(obs.Notes, "invalid generated SDL: "+o.Err)
